@@ -803,3 +803,23 @@ Definition ing_tcp_connect (ifc : iface) (dst : ipaddr) : outcome (list emitted)
 Definition ing_ip_mtu (m : medium) (dev_mtu : Z) : Z :=
   match m with MEth => dev_mtu - weth_f_PAYLOAD | _ => dev_mtu end.
 Definition ing_frag_buffer_size : Z := cfg_FRAGMENTATION_BUFFER_SIZE.
+
+(* ------------------------------------------------------------------ multicast reports *)
+
+(* InterfaceInner::link_local_ipv6_address *)
+Fixpoint first_link_local (l : list cidr) : option Z :=
+  match l with
+  | [] => None
+  | c :: t => match c_addr c with
+              | V6 a => if v6_is_link_local a then Some a else first_link_local t
+              | V4 _ => first_link_local t
+              end
+  end.
+
+(* InterfaceInner::mldv2_report_packet: source = first link-local address, else unspecified;
+   destination ff02::16 *)
+Definition ing_mld_report_src (ifc : iface) : Z :=
+  match first_link_local (if_addrs ifc) with Some a => a | None => 0 end.
+
+(* InterfaceInner::igmp_report_packet / igmp_leave_packet: source = ipv4_addr(), no packet without one *)
+Definition ing_igmp_report_src (ifc : iface) : option Z := ing_ipv4_addr ifc.
